@@ -1,9 +1,11 @@
 package p_broker
 
 import (
+	"bytes"
 	"encoding/json"
 	"fmt"
 	"sync"
+	"sync/atomic"
 	"testing"
 	"time"
 
@@ -29,6 +31,15 @@ type KAScenario struct {
 	// Feed: the client is subscribed to a topic on which another client keeps
 	// publishing, so the broker keeps WRITING to it while it is silent.
 	Feed bool `json:"feed,omitempty"`
+	// Partial: before going silent the client writes the first Partial bytes of a
+	// 24-byte PUBLISH (the silence begins in the middle of a packet).
+	Partial int `json:"partial,omitempty"`
+	// Flood: the client never stops sending but does not read for 2.2 x K: it
+	// writes 24 576 PINGREQs, which fill both buffers of its connection, so that
+	// the broker stops taking its bytes until it reads again; then it reads, goes
+	// on pinging every 0.15 x K and must still be connected with every PINGREQ
+	// answered (from its own point of view it always had a write in progress).
+	Flood bool `json:"flood,omitempty"`
 }
 
 type C19Case struct {
@@ -95,6 +106,46 @@ func runC19(c C19Case) (fails []string, incon int, classes []string) {
 			if sc.Feed {
 				cn.Send(&codec.Packet{Type: codec.SUBSCRIBE, PacketID: 999, Topics: [][]byte{[]byte("ka/feed")}, QoSs: []byte{0}})
 				o.cls = append(o.cls, "receives-deliveries-while-silent-or-active")
+			}
+			if sc.Flood {
+				var resp atomic.Int64
+				cn.OnPacket = func(p *codec.Packet, off int64) bool {
+					if p.Type == codec.PINGRESP {
+						resp.Add(1)
+						return true
+					}
+					return p.Type == codec.PUBLISH
+				}
+				cn.Stall()
+				chunk := bytes.Repeat([]byte{0xC0, 0}, 512)
+				sent := int64(0)
+				for i := 0; i < 48; i++ {
+					cn.SendAsync(chunk)
+					sent += 512
+				}
+				time.Sleep(K * 22 / 10)
+				cn.Unstall()
+				what := fmt.Sprintf("scenario %d (K=%ds): the client wrote PINGREQs without a pause but did not read for 2.2 x K, so that the broker stopped taking its bytes; when it read again", si, sc.K)
+				for i := 0; i < 11; i++ {
+					if err := cn.SendRawTimeout([]byte{0xC0, 0}, wire.DefaultWait); err != nil {
+						o.fail = fmt.Sprintf("%s it was disconnected (%v) although it never stopped sending", what, err)
+						return
+					}
+					sent++
+					time.Sleep(K * 15 / 100)
+				}
+				for i := 0; i < 2000 && resp.Load() < sent && !cn.PeerClosed(); i++ {
+					time.Sleep(5 * time.Millisecond)
+				}
+				if resp.Load() != sent {
+					o.fail = fmt.Sprintf("%s %d of its %d PINGREQs were answered (connection closed by the broker: %v)", what, resp.Load(), sent, cn.PeerClosed())
+					return
+				}
+				o.cls = append(o.cls, "sending-without-reading-for-2.2K-then-resuming")
+				cn.Send(&codec.Packet{Type: codec.DISCONNECT})
+				cn.WaitTeardown(wire.DefaultWait)
+				cn.Close()
+				return
 			}
 			last := time.Now()
 			pings, maxGap, timely := 0, time.Duration(0), 0
@@ -175,6 +226,16 @@ func runC19(c C19Case) (fails []string, incon int, classes []string) {
 				o.cls = append(o.cls, "silent-after>=2-timely-packets")
 			}
 			wantWill[si] = 1
+			if sc.Partial > 0 {
+				pkt := codec.Encode(&codec.Packet{Type: codec.PUBLISH, Topic: []byte("ka/traffic"), Payload: []byte("0123456789")})
+				if err := cn.SendRaw(pkt[:minInt(sc.Partial, len(pkt)-1)]); err == nil {
+					if g := time.Since(last); g > maxGap {
+						maxGap = g
+					}
+					last = time.Now()
+					o.cls = append(o.cls, "silence-begins-inside-a-packet")
+				}
+			}
 			early := K * 90 / 100
 			if cn.WaitClosed(early - time.Since(last)) {
 				if time.Since(last) < K {
@@ -247,6 +308,12 @@ func genC19(t *rapid.T) C19Case {
 				budget -= lg.GapPct
 				sc.Steps = append(sc.Steps, lg)
 			}
+		}
+		if sc.Silent && rapid.IntRange(0, 2).Draw(t, "partial") == 0 {
+			sc.Partial = rapid.SampledFrom([]int{1, 2, 9, 22}).Draw(t, "cut")
+		}
+		if i == 7 && rapid.IntRange(0, 1).Draw(t, "flood") == 0 {
+			sc = KAScenario{K: 1, Flood: true}
 		}
 		c.Scenarios = append(c.Scenarios, sc)
 	}
